@@ -164,7 +164,21 @@ fn observe_lex(src: &str) -> String {
 }
 
 /// (kind, text) of every token when the source lexes without error.
+/// Where the text currently handed to the implementation outside a recorded case is noted (see `real_tokens`).
+static PENDING: std::sync::OnceLock<std::sync::Mutex<std::fs::File>> = std::sync::OnceLock::new();
+
 fn real_tokens(src: &str) -> Option<Vec<(Token, (usize, usize))>> {
+    // candidate renderings are tokenised with the real lexer too: note the text first, so that a process death here
+    // still leaves the failing input on disk
+    if let Some(p) = PENDING.get() {
+        use std::io::{Seek, SeekFrom};
+        if let Ok(mut f) = p.lock() {
+            // one open handle, overwritten in place (newline-terminated; the reader takes the first line)
+            let _ = f.seek(SeekFrom::Start(0));
+            let _ = f.write_all(enc(src).as_bytes());
+            let _ = f.write_all(b"\n");
+        }
+    }
     // the implementation may panic inside a token callback: that is an observation, never the harness' death
     std::panic::catch_unwind(|| {
         let lexer = Lexer::new(src).ok()?;
@@ -1140,6 +1154,9 @@ fn main() {
         std::process::exit(2);
     }
     std::panic::set_hook(Box::new(|_| {}));
+    if let Ok(f) = std::fs::File::create(format!("{}.pending", a[3])) {
+        let _ = PENDING.set(std::sync::Mutex::new(f));
+    }
     let thorough = a[1] == "thorough";
     let seed: u64 = a[2].parse().unwrap_or(1);
     let mut sink = Sink {
